@@ -324,13 +324,13 @@ def run(tier, seed, t0):
     for hk in HIST_QUICK + (HIST_THOROUGH if tier == "thorough" else []):
         try:
             history(e3, hk)
-        except (sym.Unsupported, KeyError, IndexError) as ex:
+        except _e3.ENC_ERRORS as ex:
             e3.error("c12_history_" + "".join(k[0] for k in hk), "MIR->SMT encoding of Recency::{new,should_store_*}", ex)
     try:
         for k in KIND:
             one_step_table(e3, k)
         two_kinds_history(e3)
-    except (sym.Unsupported, KeyError, IndexError, AttributeError, z3.Z3Exception) as ex:
+    except _e3.ENC_ERRORS as ex:
         # the decision tables start from an arbitrary *internal* state and therefore depend on the layout of Recency's bookkeeping;
         # on a tree with another layout they cannot be built (the histories above do not depend on it)
         o = Obligation("c12_step_tables", "mirsmt", "one observation from an arbitrary internal state (layout-dependent)")
